@@ -96,6 +96,7 @@ type loopRun struct {
 	entryCtr  int64
 	decAtHead []*Term
 	regions   []region
+	auto      []*autoCand
 }
 
 // enterLoop is called with f.cur = merged state of the forward edges into the
@@ -136,6 +137,13 @@ func (f *Frame) enterLoop(li *loopInfo, b *ssa.BasicBlock) {
 		}
 	}
 	// 2. havoc: phis and the memory the loop may write
+	preState := f.cur
+	prePhi := map[*ssa.Phi]*Term{}
+	for _, phi := range lr.phis {
+		if pv := f.val(phi); len(pv) == 1 {
+			prePhi[phi] = pv[0]
+		}
+	}
 	for _, phi := range lr.phis {
 		nv := u.freshValue("phi!"+phi.Comment, phi.Type())
 		for _, fact := range u.validFacts(phi.Type(), nv, tb.BVU(32, 0xffffffff)) {
@@ -177,6 +185,19 @@ func (f *Frame) enterLoop(li *loopInfo, b *ssa.BasicBlock) {
 	}
 	// objects allocated inside the loop get ids from a band of their own
 	u.objCtr += 1 << 12
+	// 4. automatic index invariants (not while probing an enclosing loop's candidates twice over)
+	if !f.spec {
+		kept := f.inferLoopInvariants(li, b, lr.phis, prePhi, preState)
+		lr.auto = kept
+		for _, c := range kept {
+			if p := c.pred(f, prePhi[c.phi]); p != nil {
+				u.addObl("inv-entry", anchor+"/auto:"+c.desc, preState.reach, p, f.pos(b.Instrs[0].Pos()), "inferred loop invariant "+c.desc+" does not hold on entry")
+			}
+			if p := c.pred(f, f.val(c.phi)[0]); p != nil {
+				u.addFact(tb.Implies(f.cur.reach, p))
+			}
+		}
+	}
 }
 
 func (f *Frame) evalStubLoop(con *Contract, vals [][]*Term, mem MemState) *stubEval {
@@ -189,11 +210,34 @@ func (f *Frame) backEdge(li *loopInfo, from, header *ssa.BasicBlock, st BState) 
 	tb := f.tb()
 	u := f.u
 	lr := f.loopRuns[header]
-	if lr == nil || lr.con == nil || f.spec {
+	if lr == nil || f.spec {
 		return
 	}
 	anchor := f.anchorFor(fmt.Sprintf("loop%d", li.ord))
 	idx := predIndex(header, from)
+	if f.probe != nil && f.probe.header == header {
+		bk := probeBack{from: from, st: st, vals: map[*ssa.Phi]*Term{}}
+		for _, phi := range lr.phis {
+			if v := f.val(phi.Edges[idx]); len(v) == 1 {
+				bk.vals[phi] = v[0]
+			}
+		}
+		f.probe.backs = append(f.probe.backs, bk)
+		return
+	}
+	for _, c := range lr.auto {
+		if v := f.val(c.phi.Edges[idx]); len(v) == 1 {
+			save := f.cur
+			f.cur = st
+			if p := c.pred(f, v[0]); p != nil {
+				u.addObl("inv-step", anchor+"/auto:"+c.desc, st.reach, p, f.pos(header.Instrs[0].Pos()), "inferred loop invariant "+c.desc+" is not preserved")
+			}
+			f.cur = save
+		}
+	}
+	if lr.con == nil {
+		return
+	}
 	phiVals := map[*ssa.Phi][]*Term{}
 	for _, phi := range lr.phis {
 		phiVals[phi] = f.val(phi.Edges[idx])
